@@ -40,7 +40,7 @@ def own_nodes(fn):
 def bound_names(fn, module_names):
     """Distinct identifiers bound in fn's own scope, in source order; parameters, global/nonlocal names and module-level names excluded."""
     own, _ = own_nodes(fn)
-    skip = set(_params(fn)) | set(module_names)
+    skip = set(_params(fn))      # (a name assigned in a function is local to it even when a module-level name is spelled the same)
     found = []
     for n in own:
         if isinstance(n, (ast.Global, ast.Nonlocal)):
